@@ -2,7 +2,7 @@
 # confirm_seeded.sh <ID> <a|b>: confirm a sub-agent's mutation in its scratch worktree /tmp/wt/<ID>:
 #  demo passes on pristine, patch applies, builds, suite passes with it, demo fails with it.
 # On success copies the artefacts to /verif/seeded/<ID>_<v>/ and writes meta.json there.
-ID=$1; V=$2; WT=/tmp/wt/$ID; S=$WT/SEEDED
+ID=$1; V=$2; R=${3:-}; WT=/tmp/wt/$ID; S=$WT/SEEDED   # optional 3rd argument: round tag (e.g. r5) -> seeded/<ID><tag>_<v>
 cd $WT || exit 2
 git checkout -q -- . ; rm -f tests/seeded_*.rs
 demo=seeded_${ID}_${V}
@@ -24,7 +24,7 @@ echo "$r_mut" | grep -q "FAILED" || ok=0
 echo "$suite" | grep -q " 0 failed" || ok=0
 echo "$suite" | grep -q "^142 passed" || ok=0
 if [ $ok = 1 ]; then
-  D=/verif/seeded/${ID}_$V; mkdir -p $D
+  D=/verif/seeded/${ID}${R}_$V; mkdir -p $D
   cp $S/$V.patch.diff $D/patch.diff; cp $S/$demo.rs $D/demo.rs
   python3 - "$S/$V.meta.json" "$D/meta.json" "$r_pristine" "$r_mut" "$suite" "$feat" <<'PY'
 import json,sys
